@@ -311,6 +311,7 @@ type runCase struct {
 	RetErr  bool    // the method has an error result
 	Err     string  // the call returned an error: Coq term (fn, wraps)
 	ErrOracle string // verdict of the direct C07 oracle ("" = holds)
+	Race    string  // race detector report when the conversion ran concurrently on one source (thorough tier, C04)
 	Custom  bool
 }
 
@@ -820,4 +821,86 @@ func sortedKeys(m map[string][]byte) []string {
 	}
 	sort.Strings(ks)
 	return ks
+}
+
+// ---- race run (thorough tier, C04): every converter is called from several goroutines on the SAME source value ----
+
+func writeRaceDriver(root string, p *Program, cases []*runCase) {
+	var body strings.Builder
+	var calls []string
+	for _, rc := range cases {
+		if rc.Pre != nil {
+			continue
+		}
+		b := &goBuilder{p: p, done: map[int]string{}}
+		expr := b.expr(rc.Src)
+		fmt.Fprintf(&body, "func case_%d() {\n\tdefer func() { recover() }()\n", rc.ID)
+		for _, d := range b.decls {
+			body.WriteString("\t" + d + "\n")
+		}
+		pkg := "generated"
+		if rc.SamePk {
+			pkg = "p"
+		}
+		var ctxArgs []string
+		for i, t := range rc.CtxT {
+			ctxArgs = append(ctxArgs, b.lit(p.under(t).Kind, rc.CtxV[i], p.goType(t, 0)))
+		}
+		args := append([]string{"src"}, ctxArgs...)
+		if rc.CtxFirst {
+			args = append(append([]string{}, ctxArgs...), "src")
+		}
+		fmt.Fprintf(&body, "\tvar src %s = %s\n\tvar wg sync.WaitGroup\n\tfor g := 0; g < 4; g++ {\n\t\twg.Add(1)\n\t\tgo func() {\n\t\t\tdefer wg.Done()\n\t\t\tdefer func() { recover() }()\n\t\t\t(&%s.%sImpl{}).%s(%s)\n\t\t}()\n\t}\n\twg.Wait()\n}\n\n",
+			p.goType(rc.Src.T, 0), expr, pkg, rc.Conv, rc.Method, strings.Join(args, ", "))
+		calls = append(calls, fmt.Sprintf("\tfmt.Fprintln(os.Stderr, \"CASE %d\")\n\tcase_%d()", rc.ID, rc.ID))
+	}
+	var sb strings.Builder
+	sb.WriteString("package main\n\nimport (\n\t\"fmt\"\n\t\"os\"\n\t\"sync\"\n")
+	text := body.String()
+	fmt.Fprintf(&sb, "\tp %q\n", pkgPaths[1])
+	if regexp.MustCompile(`\bq\.`).MatchString(text) {
+		fmt.Fprintf(&sb, "\tq %q\n", pkgPaths[2])
+	}
+	if strings.Contains(text, "generated.") {
+		fmt.Fprintf(&sb, "\tgenerated %q\n", pkgPaths[3])
+	}
+	sb.WriteString(")\n\nvar _ sync.Mutex\nvar _ = p.Q_ref\n")
+	sb.WriteString(text)
+	sb.WriteString("func main() {\n" + strings.Join(calls, "\n") + "\n\tfmt.Fprintln(os.Stderr, \"CASE -1\")\n}\n")
+	must(os.MkdirAll(filepath.Join(root, "cmd", "drvrace"), 0o755))
+	must(os.WriteFile(filepath.Join(root, "cmd", "drvrace", "main.go"), []byte(strings.Replace(sb.String(), "var _ = p.Q_ref\n", "", 1)), 0o644))
+}
+
+// runRace builds the race driver with -race and returns the ids of the cases during which the detector reported a race.
+func runRace(root string) (map[int]string, string) {
+	cmd := exec.Command("go", "build", "-race", "-o", filepath.Join(root, "drvrace.bin"), "./cmd/drvrace")
+	cmd.Dir = root
+	cmd.Env = append(os.Environ(), "GOFLAGS=-mod=mod", "GOPROXY=off", "GOSUMDB=off", "GOTOOLCHAIN=local", "CGO_ENABLED=1")
+	if out, err := cmd.CombinedOutput(); err != nil {
+		return nil, "race build failed: " + firstLines(string(out), 5)
+	}
+	run := exec.Command(filepath.Join(root, "drvrace.bin"))
+	run.Dir = root
+	run.Env = append(os.Environ(), "GORACE=halt_on_error=0")
+	var stderr bytes.Buffer
+	run.Stderr = &stderr
+	run.Run()
+	races := map[int]string{}
+	cur := -1
+	lines := strings.Split(stderr.String(), "\n")
+	for i, l := range lines {
+		if strings.HasPrefix(l, "CASE ") {
+			fmt.Sscanf(l, "CASE %d", &cur)
+		}
+		if strings.Contains(l, "WARNING: DATA RACE") {
+			end := i + 14
+			if end > len(lines) {
+				end = len(lines)
+			}
+			if _, ok := races[cur]; !ok {
+				races[cur] = strings.Join(lines[i:end], "\n")
+			}
+		}
+	}
+	return races, ""
 }
